@@ -13,6 +13,7 @@ package main
 
 import (
 	"fmt"
+	"runtime"
 	"sort"
 	"strings"
 
@@ -39,7 +40,7 @@ func init() {
 	tryChecks, tryProgram, tryExtra := htry.Parts()
 	harnesses = []core.PkgHarness{
 		hoption.Harness(),
-		{Prof: core.ProfTry, Checks: core.Concat(tryChecks, htryx.Checks()), Program: tryProgram, Extra: tryExtra},
+		{Prof: core.ProfTry, Checks: core.Concat(tryChecks, htryx.Checks()), Program: tryProgram, Extra: append(tryExtra, htryx.SentinelHits()...)},
 		heither.Harness(),
 		hstatet.Harness(),
 	}
@@ -111,6 +112,9 @@ func casesPerBatch(tier string, b int) int {
 }
 
 func run(w *vrt.W) {
+	// the worker is sequential; the forced collections of core/gcpull.go cost 5x less with 2 Ps than
+	// with 16 (stop-the-world and mark-worker hand-offs on a loaded machine)
+	runtime.GOMAXPROCS(2)
 	if fb := w.Batch - classicBatches(w.Tier); fb >= 0 {
 		pl := forkPlan(w.Tier)[fb]
 		h := &forkHarnesses[pl.h]
@@ -191,6 +195,20 @@ func floors(tier string) map[string]int64 {
 		fl["elem.unit-on-zero."+p] = 40
 	}
 	fl["rerun.kept-slices-differ-between-runs.statet"] = 100
+	// failure values: every flavour (private, library sentinels, wrapping / joined library sentinels) for try and statet
+	for _, p := range []string{"try", "statet"} {
+		for _, f := range []string{"private", "library-sentinels", "wrapping-library-sentinels", "option-empty-related", "joined-with-library-sentinels", "mixed"} {
+			fl["errors.flavour."+f+"."+p] = 500
+		}
+	}
+	// pull-based / Go-map-based Iterator operands followed by forced collections
+	for _, p := range []string{"option", "try", "either", "statet", "iterator"} {
+		fl["gc.pull-operands."+p] = 60
+		fl["gc.pull-operands-with-two-or-more-elements."+p] = 20
+	}
+	fl["gc.pull-operands.iterator"] = 200
+	fl["gc.mid-consumption.iterator"] = 150
+	fl["gc.go-map-operands-with-two-or-more-entries.iterator"] = 100
 	for _, p := range []string{"option", "try", "either", "seq"} {
 		fl["rerun.reinspected-nonempty-slices."+p] = 200
 	}
@@ -204,7 +222,7 @@ func main() {
 		Cases:    casesPerBatch,
 		Run:      run,
 		Floors:   floors,
-		Rule:     "classic batch b exercises one of the 10 packages (b mod 10). Case i runs the check selected by i alone: one exported combinator of the package (every arity 2..9 of the arity-indexed families through generated call sites, every method of every ApplicativeFunctorK/MonadChainK), or - one slot in five - a random expression program (depth <=4 quick / <=6 thorough, bound variables, <=14*depth nodes) over the combinator palette, interpreted by the library and by the reference. Operands come from w.Rand(i): every constructor (Some/None/zero Option, Success/Failure(err1..4), Right/Left(l1..3), StateT pure / state-changing / always-failing / failing for part of the states, nil/empty/singleton/longer sequences, lists as Seq/cons/lazy, iterators from Seq/Of/List/ReverseSeq/Empty, Eval from Done/Call/TailCall), functions from parametrised total palettes including ones failing / returning empty for part of their domain; failure placement per case: none, exactly one operand, or independent 35 %. Oracle: (a) plain-Go reference (state -> (value, failure index, state) for Option/Try/Either/StateT observed at 1 resp. 4 probe states, the list monad on []int, the strict value for Eval, Go functions on 8 probe arguments for fn1), error identity = pointer identity of the injected sentinels; (b) for Map everywhere, and for the Iterator combinators that share a single-use operand by design, the definition written with the package's own FlatMap and unit on fresh identical operands. Re-run and persistence (core/rerun.go): every program-valued result is executed several times - a StateT from the probe states 0,1,2,7 and then again from 7,2,1,0; an fn1 reader on its 8 probe arguments twice; an fn0 value three times; an Eval by Get, Run, Get; a lazy List is walked twice; an Iterator-producing call is made twice on identically rebuilt operands - and every combinator of a value monad whose result contains a slice (Traverse*, Sequence*, MapSeqLift, FlatMapTraverse*, the try SeqT functions, everything in seq) is called twice on the very same operands. Each result is snapshotted at once (the first pass is what the reference is compared with), a repeated run must equal the first run from the same input (key <check>/rerun-differs-from-first-run), and all results are kept AS RETURNED (slices, Seq, maps are not copied) and read again after all later runs (key <check>/earlier-result-changed-by-rerun). Element types (helem, core/elem.go): the unit, the three laws, Map (+ its FlatMap definition), Flatten, Ap, Flap, Zip, Replace, Map2, With, Method1, TraverseSeq and Sequence of option/try/either/statet, unit/laws/Map/Flatten/Ap/Map2/Flap of seq/list/iterator and unit/laws/Map/Map2/Flatten of lazy/fn0/fn1 are instantiated again at *int, []int, map[int]int, func(int) int, any (incl. a typed nil pointer in a non-nil interface) and error (check names carry the tag, e.g. option.Map[ptr]); palettes of 4-5 values with nil first, functions are tables over the palette, and every such case runs with the palette rotated through all positions so that nil reaches the unit argument, the function result and the operand value in every visit; a unit that does not return a success carrying exactly its argument is keyed <pkg>.<unit>/unit-not-total. FORKS (core/fork.go; batches appended after the classic ones, one package per batch: lazy, fn0, fn1, statet, list, iterator): case i of a fork batch builds ONE base value m that already carries k = i mod 41 pending steps (k = 0..40, every value equally often; lazy: Done/Call/TailCall* extended by k Eval.FlatMap / Eval.Map / lazy.FlatMap / lazy.Map steps; statet: k FlatMap / Map / FlatMapConst / Map2 / MapWithState steps; fn0, fn1: k Map / FlatMap steps; list: a Seq-backed / cons / lazy list extended by k list.Map / FlatMap / FilterMap / Map2 steps; iterator: an Iterator-producing function made of k nested iterator.Compose / ComposePure calls, and the lazy list as a persistent source of Iterators), derives 2..5 continuations with DIFFERENT functions from that one m through the binding combinators of the package (the arm kinds rotate with i div 41 so that every kind meets every k; kinds and operand positions are listed under coverage.forks.<pkg>.arms_by_combinator_and_position: FlatMap, Map, Map2 first / second / both operands, Ap function / argument operand, ApFunc, Flatten, Zip, Zip3, Replace, FlatMapConst, Concat, MapWithState, MapT, Lift*, FlatMap2, Flap, FlapMap, Method1, FlatMethod1, With, UnZip, Sequence, TraverseSeq, Compose, PeekState, m used inside a continuation, TailCall returning m, m itself), in half of the cases two more continuations from the first arm, keeps all of them, and only then observes every arm 2..3 times in PRNG order with the observers above (list cells / Iterators of all arms are first walked interleaved, one or two elements of one arm at a time). Every observation must equal the plain-Go model and the same continuation bound to an INDEPENDENTLY constructed base (the constructor run again on the same descriptors); an arm that is wrong while its twin is right is keyed <pkg>.<Combinator>/forked-value-disturbed, a wrong twin <pkg>.<Combinator>/differs-from-reference. The same cases check left identity (with a Kleisli arrow that carries the k pending steps), right identity and associativity on such bases with the left side built from one construction of m and the right side from another one (keys <pkg>.FlatMap/<law>). Every case is counted; distinct_nontrivial = number of distinct (combinator, tuple of operand shapes) pairs (operand shape = constructor variant + success/failure class, sequence shape; for programs the whole expression).",
+		Rule:     "classic batch b exercises one of the 10 packages (b mod 10). Case i runs the check selected by i alone: one exported combinator of the package (every arity 2..9 of the arity-indexed families through generated call sites, every method of every ApplicativeFunctorK/MonadChainK), or - one slot in five - a random expression program (depth <=4 quick / <=6 thorough, bound variables, <=14*depth nodes) over the combinator palette, interpreted by the library and by the reference. Operands come from w.Rand(i): every constructor (Some/None/zero Option, Success/Failure(err1..4), Right/Left(l1..3), StateT pure / state-changing / always-failing / failing for part of the states, nil/empty/singleton/longer sequences, lists as Seq/cons/lazy, iterators from Seq/Of/List/ReverseSeq/Empty, Eval from Done/Call/TailCall), functions from parametrised total palettes including ones failing / returning empty for part of their domain; failure placement per case: none, exactly one operand, or independent 35 %. Oracle: (a) plain-Go reference (state -> (value, failure index, state) for Option/Try/Either/StateT observed at 1 resp. 4 probe states, the list monad on []int, the strict value for Eval, Go functions on 8 probe arguments for fn1), error identity = pointer identity of the injected sentinels; (b) for Map everywhere, and for the Iterator combinators that share a single-use operand by design, the definition written with the package's own FlatMap and unit on fresh identical operands. Re-run and persistence (core/rerun.go): every program-valued result is executed several times - a StateT from the probe states 0,1,2,7 and then again from 7,2,1,0; an fn1 reader on its 8 probe arguments twice; an fn0 value three times; an Eval by Get, Run, Get; a lazy List is walked twice; an Iterator-producing call is made twice on identically rebuilt operands - and every combinator of a value monad whose result contains a slice (Traverse*, Sequence*, MapSeqLift, FlatMapTraverse*, the try SeqT functions, everything in seq) is called twice on the very same operands. Each result is snapshotted at once (the first pass is what the reference is compared with), a repeated run must equal the first run from the same input (key <check>/rerun-differs-from-first-run), and all results are kept AS RETURNED (slices, Seq, maps are not copied) and read again after all later runs (key <check>/earlier-result-changed-by-rerun). Element types (helem, core/elem.go): the unit, the three laws, Map (+ its FlatMap definition), Flatten, Ap, Flap, Zip, Replace, Map2, With, Method1, TraverseSeq and Sequence of option/try/either/statet, unit/laws/Map/Flatten/Ap/Map2/Flap of seq/list/iterator and unit/laws/Map/Map2/Flatten of lazy/fn0/fn1 are instantiated again at *int, []int, map[int]int, func(int) int, any (incl. a typed nil pointer in a non-nil interface) and error (check names carry the tag, e.g. option.Map[ptr]); palettes of 4-5 values with nil first, functions are tables over the palette, and every such case runs with the palette rotated through all positions so that nil reaches the unit argument, the function result and the operand value in every visit; a unit that does not return a success carrying exactly its argument is keyed <pkg>.<unit>/unit-not-total. FORKS (core/fork.go; batches appended after the classic ones, one package per batch: lazy, fn0, fn1, statet, list, iterator): case i of a fork batch builds ONE base value m that already carries k = i mod 41 pending steps (k = 0..40, every value equally often; lazy: Done/Call/TailCall* extended by k Eval.FlatMap / Eval.Map / lazy.FlatMap / lazy.Map steps; statet: k FlatMap / Map / FlatMapConst / Map2 / MapWithState steps; fn0, fn1: k Map / FlatMap steps; list: a Seq-backed / cons / lazy list extended by k list.Map / FlatMap / FilterMap / Map2 steps; iterator: an Iterator-producing function made of k nested iterator.Compose / ComposePure calls, and the lazy list as a persistent source of Iterators), derives 2..5 continuations with DIFFERENT functions from that one m through the binding combinators of the package (the arm kinds rotate with i div 41 so that every kind meets every k; kinds and operand positions are listed under coverage.forks.<pkg>.arms_by_combinator_and_position: FlatMap, Map, Map2 first / second / both operands, Ap function / argument operand, ApFunc, Flatten, Zip, Zip3, Replace, FlatMapConst, Concat, MapWithState, MapT, Lift*, FlatMap2, Flap, FlapMap, Method1, FlatMethod1, With, UnZip, Sequence, TraverseSeq, Compose, PeekState, m used inside a continuation, TailCall returning m, m itself), in half of the cases two more continuations from the first arm, keeps all of them, and only then observes every arm 2..3 times in PRNG order with the observers above (list cells / Iterators of all arms are first walked interleaved, one or two elements of one arm at a time). Every observation must equal the plain-Go model and the same continuation bound to an INDEPENDENTLY constructed base (the constructor run again on the same descriptors); an arm that is wrong while its twin is right is keyed <pkg>.<Combinator>/forked-value-disturbed, a wrong twin <pkg>.<Combinator>/differs-from-reference. The same cases check left identity (with a Kleisli arrow that carries the k pending steps), right identity and associativity on such bases with the left side built from one construction of m and the right side from another one (keys <pkg>.FlatMap/<law>). FAILURE VALUES AND COLLECTOR (core/gcpull.go): by visit number the injected failures Errs[1..4] are private sentinels, the library's own exported sentinel errors (fp.ErrOptionEmpty, fp.ErrTryNotFailed, fp.ErrFutureNotFailed, reflectfp.ErrInvalidType), fmt.Errorf(%w) / errors.Join / fp.Error(cause) wrappers of them, or a mix, always compared by identity; the check try.user-failure-with-library-sentinel runs one of 29 try / statet combinators per visit with a user function or operand failing with each of 19 sentinel forms in turn. Iterator operands are built, one visit in 32 (value-monad Traverse / SequenceIterator / FoldM operands: one in 6), by iterator.Pull, fp.MakePullIterator or (at most one entry) iterator.FromMapValue / FromMap / fp.IteratorOfGoMap, followed by two forced garbage collections whose finalizers are awaited, with another forced double collection inside the source or after the first element of the result (at most 2 per case); Go maps with 0..17 entries have their own multiset-compared checks (iterator.*(go-map source), try.Traverse(go-map source)). Every case is counted; distinct_nontrivial = number of distinct (combinator, tuple of operand shapes) pairs (operand shape = constructor variant + success/failure class, sequence shape; for programs the whole expression).",
 		Assumptions: []string{
 			"callbacks handed to the library are pure and total; effects order is observed through which failure / which state results, callback invocation order itself is C02",
 			"element types are int (and nested containers / curried functions of int) for every combinator and arity; the law / definition checks of the unit-dependent core (unit, laws, Map, Flatten, Ap, Flap, Zip, Replace, Map2, With, Method1, TraverseSeq, Sequence) are repeated at six nil-able element types; the arity-indexed families and the builders are exercised at int only",
@@ -215,6 +233,7 @@ func main() {
 			"seq/list/iterator Zip/Zip3 are positional zips, not monadic products, and are left to C12",
 			"forks: 2..7 continuations per base, at most two levels (base -> arm -> arm); the base carries 0..40 pending steps, every number equally often; an Iterator value itself is single-use and is never forked, only the functions and persistent sources that produce Iterators are",
 			"operands are PRNG-sampled, not exhaustive",
+			"a forced collection is runtime.GC() twice, each followed by a bounded wait for a probe finalizer armed before that cycle; the wait is not part of any verdict; ordered Go-map-backed operands have at most one entry, multi-entry maps are compared as multisets",
 		},
 		Finish: func(tier string, m *vrt.Merged, cov map[string]any) {
 			per := map[string]int{}
@@ -243,6 +262,13 @@ func main() {
 				}
 			}
 			cov["rerun"] = rerun
+			gcs := map[string]int64{}
+			for k, v := range m.Counters {
+				if strings.HasPrefix(k, "gc.") || strings.HasPrefix(k, "errors.flavour.") {
+					gcs[k] = v
+				}
+			}
+			cov["error_flavours_and_forced_collections"] = gcs
 			// forks: per package the cases per number of pending steps (0..40) and the totals
 			forks := map[string]any{}
 			for _, h := range forkHarnesses {
